@@ -27,7 +27,7 @@ VARIABLES tid, l
 cvars == <<vars, tid, l>>
 Lines == All[tid].lines
 model == <<loose, looseSynced, sbx, pk, pkSynced, pbuf, idx, pend, snapP, pinP, snapR, pinR, lockf, wpc, wi, wexists,
-           rpc, rhits, rmiss, rres, ppc, plist, ptodo, pdone, pclean, acked, rstarted, dead, faults, power>>
+           rpc, rhits, rmiss, rres, spc, stries, sres, ppc, plist, ptodo, pdone, pclean, acked, rstarted, dead, faults, power>>
 S2(s) == {s[i] : i \in DOMAIN s}
 Ln == Lines[l + 1]
 
